@@ -1,6 +1,6 @@
 (* C42 — property theorems only.  Each is closed by `exact <lemma>` and followed by Print Assumptions. *)
 From Coq Require Import List NArith Bool Arith.
-From Verif.C42 Require Import Model Spec Proofs ProofsApply ProofsFinal ProofsIds ProofsSpec ProofsPin ProofsMaglev Witness.
+From Verif.C42 Require Import Model Spec Proofs ProofsApply ProofsFinal ProofsIds ProofsSpec ProofsPin ProofsMaglev ProofsSched Witness.
 Import ListNotations.
 Open Scope N_scope.
 
@@ -227,3 +227,19 @@ Theorem c42_maglev_pinned_order_refuted :
   mg_consistentb 2 fe0 mg0 = true /\ mg_consistentb 2 fe0 (del pair_eqb (0, 0) mg0) = false.
 Proof. exact maglev_pinned_order_witness. Qed.
 Print Assumptions c42_maglev_pinned_order_refuted.
+
+(* A VALID SCHEDULE ALWAYS EXISTS.  For every history of inputs - states handed to Apply with a visit order the model's
+   own validity check accepts (a permutation of the services, for each the remote nodes in some order), arbitrary
+   failing keys, restarts - from any Syncer state and any dataplane whose maps have no duplicate keys (e.g. empty),
+   there are schedules of the single writes such that run_history accepts the history.  So the hypothesis
+   `run_history ... = Some ...` of c42_every_write_consistent / c42_final_exact is satisfiable for every history. *)
+Theorem c42_schedule_exists : forall cfg ins sy d,
+  ukeys (fst d) -> ukeys (snd d) -> Forall hin_ok ins ->
+  exists ops states sy' d', map erase ops = ins /\ run_history cfg sy d ops = Some (states, sy', d').
+Proof. exact schedule_exists. Qed.
+Print Assumptions c42_schedule_exists.
+
+(* the side condition on the visit order is necessary as well: it is exactly what visit_all checks *)
+Theorem c42_visit_ok_necessary : forall st v prev next r, visit_all prev next st v = Some r -> visit_ok st v = true.
+Proof. exact visit_ok_necessary. Qed.
+Print Assumptions c42_visit_ok_necessary.
